@@ -14,6 +14,7 @@ package c14
 import (
 	_ "crypto/sha256"
 	_ "crypto/sha512"
+	"encoding/hex"
 	"encoding/json"
 	"fmt"
 	"os"
@@ -278,7 +279,12 @@ func xLine(c *E2ECase, res *E2EResult, s int) (string, string, bool) {
 	if c.SkipGC {
 		sg = 1
 	}
-	in := fmt.Sprintf("X %d %s %s %s", sg, keyList(c.PreIndex[s]), strings.Join(specs, ","), strings.Join(evs, " "))
+	// the last token carries the whole end-to-end case (with the recorded schedule) so that a
+	// mismatch on this projected line can be re-run under the oracle (bin/check --replay)
+	rc := c.clone()
+	rc.Decisions = res.Decisions
+	js, _ := json.Marshal(rc)
+	in := fmt.Sprintf("X %d %s %s %s J%s", sg, keyList(c.PreIndex[s]), strings.Join(specs, ","), strings.Join(evs, " "), hex.EncodeToString(js))
 	// the body of every index PUT (the batch applied to the index that was fetched) is observable too
 	ps := "-"
 	if len(puts) > 0 {
